@@ -11,13 +11,13 @@ git -C /repo worktree add -q --detach $WT HEAD || exit 2
 cd $WT || exit 2
 cp "$SRC/seeded_demo.rs" tests/seeded_demo.rs
 echo "== demo on clean tree"
-if cargo test --offline --test seeded_demo >/tmp/confirm-$ID.clean.log 2>&1; then CLEAN=pass; else CLEAN=fail; fi
+if cargo test --offline $SEED_FEATURES --test seeded_demo >/tmp/confirm-$ID.clean.log 2>&1; then CLEAN=pass; else CLEAN=fail; fi
 echo "   $CLEAN"
 echo "== apply patch"
 if git apply "$SRC/patch.diff"; then APPLY=ok; else APPLY=fail; fi
 echo "   $APPLY"
 echo "== demo with patch"
-if cargo test --offline --test seeded_demo >/tmp/confirm-$ID.patched.log 2>&1; then PATCHED=pass; else PATCHED=fail; fi
+if cargo test --offline $SEED_FEATURES --test seeded_demo >/tmp/confirm-$ID.patched.log 2>&1; then PATCHED=pass; else PATCHED=fail; fi
 echo "   $PATCHED"
 echo "== existing suite with patch (demo moved aside)"
 mv tests/seeded_demo.rs /tmp/confirm-$ID.demo.rs
